@@ -551,6 +551,13 @@ func conclude(prop, tier string, seed int64, t0 time.Time, loadS float64, result
 		for _, f := range r.Stubs {
 			stubsUsed[f] = true
 		}
+		if os.Getenv("VERIF_SLOW") != "" {
+			lg := append([]gosym.QueryLog{}, r.Log...)
+			sort.Slice(lg, func(i, j int) bool { return lg[i].Ms > lg[j].Ms })
+			for i := 0; i < 12 && i < len(lg); i++ {
+				fmt.Fprintf(os.Stderr, "slow %s: %8.1f ms %-8s %s (%d asserts)\n", r.Name, lg[i].Ms, lg[i].Verdict, lg[i].What, lg[i].Size)
+			}
+		}
 		if r.Err != "" {
 			inconcl = append(inconcl, r.Name+": "+firstLine(r.Err))
 			fmt.Fprintf(os.Stderr, "--- %s: %s\n", r.Name, r.Err)
